@@ -483,6 +483,9 @@ func (e *Engine) solveOne(ob *Obligation, dir string, timeout time.Duration) {
 	if ob.Cover {
 		st, out, d := runSolver(ctx, solvers[0], ob.SMT, minDur(timeout, 1500*time.Millisecond))
 		ob.Status, ob.Output, ob.Time, ob.Solver = st, out, d, solvers[0].name
+		if !keepSMT {
+			os.Remove(ob.SMT) // probes are large (no relevance filter) and never replayed
+		}
 		return
 	}
 	// portfolio: z3-new starts alone; if it has not answered after a grace period the other
@@ -575,6 +578,8 @@ func (e *Engine) getModel(ob *Obligation, timeout time.Duration) string {
 // influence). Dropping assumptions can only make a query harder to refute, never easier,
 // so the filter is sound. Hub symbols (allocation maps, region sizes) do not propagate.
 var symCache = map[*Term]map[string]bool{}
+
+var keepSMT bool
 
 func relevant(asserts []*Term, goal *Term) []*Term {
 	isHub := func(n string) bool {
